@@ -34,6 +34,7 @@ Only the Lamport clock (`witness`) moves on a stale intent; the theorems say not
 import SerfProofs.Lemmas.NodeSteps
 import SerfProofs.Lemmas.NodeObserver
 import SerfProofs.Lemmas.Cluster
+import SerfProofs.Lemmas.ClusterSync
 namespace SerfProofs.C02
 open SerfModel SerfModel.Node SerfProofs.NodeBook SerfProofs.NodeSteps
 
@@ -505,5 +506,101 @@ example : leaveTimes (history (Cluster.init ["a", "p", "x"]) okRun 0) "x" = [1] 
     lastUp "x" (history (Cluster.init ["a", "p", "x"]) okRun 0) false = true := by decide +kernel
 
 end ClusterAgreement
+
+/-! ### the agreement clause at the property's full statement
+
+"For every delivery schedule of join and leave intents between members (any order, duplication and
+loss) followed by a state-sync exchange, all members agree on each member's status: alive while it
+runs, leaving or alive while it is mid-leave, left once it is down after a leave or force-leave
+newer than its latest join, and failed if it went down otherwise."
+
+Formalisation.  The pre-sync state is `crun (Cluster.init names cfg) steps` for ARBITRARY `steps`
+(every order, duplication, loss of gossip; memberlist notifications, push/pulls and local API calls
+anywhere) — the bookkeeping invariant of every node (`AllBook`) is discharged by C15
+(`allBook_crun`), nothing else is assumed about how the state was reached.  The state-sync exchange
+is `syncRound c R w`: one complete simultaneous push/pull round among the running nodes `R` (every
+LocalState computed before the round, as memberlist does; every running node merges every other
+running node's state).  "Memberlist truthful" is a hypothesis on the pre-sync state: `UpView`
+(everybody who lists x lists it alive or leaving, nobody has it on the left list — what the last
+notification `up` leaves behind) or `DownView` (failed or left; no running node is named x).
+All view predicates are DECIDABLE (they are evaluated by `decide` in the examples).
+
+  running   `C02_agreement_running`   UpView ∧ NoTie  ⇒ everybody who lists x lists it ALIVE at the
+            same status time.  `NoTie` — no running node lists x `leaving` at a status time that no
+            time known anywhere in the cluster exceeds — is the single excluded class.  It is
+            NECESSARY, exactly: `C02_agreement_tie_necessary` (under UpView, a node violating it is
+            still `leaving` after the round, for every cluster).  Both recorded counterexamples are
+            instances: the tie `rejoined-stuck-leaving` (`tie_violates_NoTie`; join at L+1 after a
+            leave at L met by a stale push/pull — and the same happens with an artificial leave at
+            L+2, L+3 … made by a chain of merges) and the unrefuted force-leave claim about a
+            running member (`claim_violates_NoTie`).
+  mid-leave `C02_agreement_midleave`  UpView ⇒ after the round everybody still lists x alive or leaving
+            (never failed / left / erased), and who lists x is unchanged.
+  left      `C02_agreement_left`      DownView ∧ SomeLeftAtMax (somebody holds the leave and its time is
+            the newest time known: "a leave newer than its latest join") ∧ no wrap ⇒ everybody LEFT.
+  failed    `C02_agreement_failed`    DownView ∧ NobodyLeft ("went down otherwise") ⇒ everybody FAILED,
+            same status time.
+  The remaining down case — somebody holds a leave OLDER than a join known elsewhere — is not an
+  agreement after one round and converges to `left` after two although the table says `failed`:
+  `stale_left_counterexample` (x left at 1, rejoined at 3 unseen by b, died; b: left, c: failed;
+  round 1: left@3 / failed@3; round 2: both left).  `wrap_counterexample`: at status time 2^64−1 the
+  artificial leave wraps to 0 and never applies (C19's wrap). -/
+
+section FullAgreement
+open SerfModel.Cluster SerfProofs.Cluster SerfProofs.ClusterSync
+
+/-- **Agreement, x running.** Every schedule, then a complete state-sync round: all running nodes that
+list x list it alive, with the same status time — unless some node holds an unbeaten leave claim. -/
+theorem C02_agreement_running (names : List Name) (cfg : Config) (steps : List CStep) (R : List Nat)
+    (x : Name) (w : Nat)
+    (hu : UpView (crun (Cluster.init names cfg) steps) R x)
+    (ht : NoTie (crun (Cluster.init names cfg) steps) R x) :
+    ∀ i ∈ R, ∀ n', (syncRound (crun (Cluster.init names cfg) steps) R w).nodes[i]? = some n' →
+      ∀ s, statusOf n' x = some s →
+        s = .alive ∧ ltimeOf n' x = some (maxLtime (crun (Cluster.init names cfg) steps) R x) :=
+  agreement_running _ R x w (allBook_crun names cfg steps) hu ht
+
+/-- the excluded class is exactly what breaks it: a node outside `NoTie` is still `leaving` after the round -/
+theorem C02_agreement_tie_necessary (names : List Name) (cfg : Config) (steps : List CStep) (R : List Nat)
+    (x : Name) (w : Nat) (hu : UpView (crun (Cluster.init names cfg) steps) R x)
+    (i : Nat) (hi : i ∈ R) (n : Node) (hn : (crun (Cluster.init names cfg) steps).nodes[i]? = some n)
+    (hs : statusOf n x = some .leaving)
+    (ht : ¬ ltimeAt (crun (Cluster.init names cfg) steps) i x < maxLtime (crun (Cluster.init names cfg) steps) R x) :
+    ∃ n', (syncRound (crun (Cluster.init names cfg) steps) R w).nodes[i]? = some n' ∧
+      statusOf n' x = some .leaving :=
+  let ⟨n', h1, h2, _⟩ := tie_persists _ R x w (allBook_crun names cfg steps) hu i hi n hn hs ht
+  ⟨n', h1, h2⟩
+
+/-- **Agreement, x mid-leave (or up in general).** -/
+theorem C02_agreement_midleave (names : List Name) (cfg : Config) (steps : List CStep) (R : List Nat)
+    (x : Name) (w : Nat) (hu : UpView (crun (Cluster.init names cfg) steps) R x) :
+    UpView (syncRound (crun (Cluster.init names cfg) steps) R w) R x :=
+  (agreement_midleave _ R x w (allBook_crun names cfg steps) hu).1
+
+/-- **Agreement, x down after a leave newer than every join known in the cluster.** -/
+theorem C02_agreement_left (names : List Name) (cfg : Config) (steps : List CStep) (R : List Nat)
+    (x : Name) (w : Nat) (hd : DownView (crun (Cluster.init names cfg) steps) R x)
+    (hl : SomeLeftAtMax (crun (Cluster.init names cfg) steps) R x)
+    (hw : maxLtime (crun (Cluster.init names cfg) steps) R x < two64 - 1) :
+    ∀ i ∈ R, ∀ n', (syncRound (crun (Cluster.init names cfg) steps) R w).nodes[i]? = some n' →
+      ∀ s, statusOf n' x = some s → s = .left :=
+  agreement_left _ R x w (allBook_crun names cfg steps) hd hl hw
+
+/-- **Agreement, x down otherwise.** -/
+theorem C02_agreement_failed (names : List Name) (cfg : Config) (steps : List CStep) (R : List Nat)
+    (x : Name) (w : Nat) (hd : DownView (crun (Cluster.init names cfg) steps) R x)
+    (hn : NobodyLeft (crun (Cluster.init names cfg) steps) R x) :
+    ∀ i ∈ R, ∀ n', (syncRound (crun (Cluster.init names cfg) steps) R w).nodes[i]? = some n' →
+      ∀ s, statusOf n' x = some s →
+        s = .failed ∧ ltimeOf n' x = some (maxLtime (crun (Cluster.init names cfg) steps) R x) :=
+  agreement_failed _ R x w (allBook_crun names cfg steps) hd hn
+
+-- non-vacuity: concrete schedules satisfying each hypothesis set are in SerfProofs.ClusterSync
+-- (`running_example`, `midleave_example`, `left_example`, `failed_example`); e.g. the running class:
+example : UpView healC [0, 1, 2] "x" ∧ NoTie healC [0, 1, 2] "x" := ⟨running_example.2.1, running_example.2.2.1⟩
+-- the recorded finding is outside NoTie, and only that:
+example : ¬ NoTie tieC [0, 1, 2] "x" := tie_violates_NoTie.2.1
+
+end FullAgreement
 
 end SerfProofs.C02
